@@ -555,7 +555,72 @@ def rule_buffers(ctx):
     c17.rule_r4(ctx, rid="C03.R10")
 
 
-RULES = [rule_r1, rule_r2, rule_r3, rule_r4, rule_r5, rule_r6, rule_r7, rule_r8, rule_error_route, rule_buffers]
+_FRAMING_NAMES = {"content-length", "connection", "transfer-encoding"}
+
+
+def _case_normaliser(e):
+    """The case normalisation an expression applies to a header name, as a
+    function on str, or None: x.lower() / upper() / casefold() / capitalize() /
+    title() and the per-segment capitalisation '-'.join(p.capitalize() for p in x.split('-'))."""
+    if isinstance(e, ast.Call) and isinstance(e.func, ast.Attribute) and not e.args and e.func.attr in ("lower", "upper", "casefold", "capitalize", "title"):
+        return getattr(str, e.func.attr)
+    if isinstance(e, ast.Call) and isinstance(e.func, ast.Attribute) and e.func.attr == "join" and isinstance(e.func.value, ast.Constant) and e.func.value.value == "-" \
+            and len(e.args) == 1 and isinstance(e.args[0], (ast.ListComp, ast.GeneratorExp)):
+        c = e.args[0]
+        if isinstance(c.elt, ast.Call) and isinstance(c.elt.func, ast.Attribute) and c.elt.func.attr == "capitalize" and len(c.generators) == 1 \
+                and isinstance(c.generators[0].iter, ast.Call) and isinstance(c.generators[0].iter.func, ast.Attribute) and c.generators[0].iter.func.attr == "split":
+            return lambda v: "-".join(x.capitalize() for x in v.split("-"))
+    return None
+
+
+def rule_r11(ctx, rid="C03.R11"):
+    ctx.r.rule(rid, "framing header names written by the application are recognised in any letter case: every comparison with 'Content-Length' / 'Connection' / 'Transfer-Encoding' in the response path is made on a case-normalised name, against a constant in that normal form")
+    from .common import def_nodes
+    p = ctx.p
+    n = 0
+    for f in sorted(p.functions.values(), key=lambda f: f.qual):
+        if f.module.name != "task":
+            continue
+        g = cfg_of(f)
+        for node in g.nodes:
+            if node.ast is None or node.kind not in ("stmt", "test", "iter"):
+                continue
+            root = node.ast.iter if node.kind == "iter" else node.ast
+            if isinstance(root, (ast.FunctionDef, ast.AsyncFunctionDef, ast.ClassDef)):
+                continue  # closures are functions of their own
+            for c in ast.walk(root):
+                if not (isinstance(c, ast.Compare) and len(c.ops) == 1 and isinstance(c.ops[0], (ast.Eq, ast.NotEq))):
+                    continue
+                sides = [c.left, c.comparators[0]]
+                const = [x for x in sides if isinstance(x, ast.Constant) and isinstance(x.value, str) and x.value.lower() in _FRAMING_NAMES]
+                if len(const) != 1:
+                    continue
+                other = sides[1] if sides[0] is const[0] else sides[0]
+                n += 1
+                fn = _case_normaliser(other)
+                if fn is None and isinstance(other, ast.Name):
+                    # the name must hold a normalised value here: a normalising definition dominates the comparison
+                    # and no other definition of the name lies between it and the comparison
+                    defs = def_nodes(g, other.id)
+                    norm_defs = [d for d in defs if d.kind == "stmt" and isinstance(d.ast, ast.Assign) and _case_normaliser(d.ast.value) is not None and g.dominates(d, node)]
+                    for d in norm_defs:
+                        between = [x for x in defs if x is not d and x.id in g.reach(d) and node.id in g.reach(x, avoid=[d])]
+                        if not between:
+                            fn = _case_normaliser(d.ast.value)
+                            break
+                if fn is None:
+                    ctx.r.violation(rid, key_of(f, None, "case-sensitive-name::" + const[0].value.lower()),
+                                    "%s compares %s with %r without case normalisation: an application spelling the header differently keeps a framing header the server believes it removed / never sees one that is there"
+                                    % (f.qual, norm(other), const[0].value), f.loc(c))
+                elif fn(const[0].value) != const[0].value:
+                    ctx.r.violation(rid, key_of(f, None, "unreachable-constant::" + const[0].value.lower()),
+                                    "%s compares a normalised name with %r, which is not in that normal form: the test never matches" % (f.qual, const[0].value), f.loc(c))
+                else:
+                    ctx.r.ok(rid, "%s: %s matched in any case" % (f.name, const[0].value), f.loc(c))
+    ctx.r.floor(rid, n, 4, "comparisons of response header names with framing names")
+
+
+RULES = [rule_r1, rule_r2, rule_r3, rule_r4, rule_r5, rule_r6, rule_r7, rule_r8, rule_error_route, rule_buffers, rule_r11]
 
 from ..selftest import M, T, V  # noqa: E402
 
